@@ -78,10 +78,13 @@ def parse_line(raw, inv, shown_names):
     while pos < len(raw):
         m = SGR.match(raw, pos)
         if m:
-            codes = m.group(1).split(b";") if m.group(1) else [b"0"]
-            if b"31" in codes:
+            # any SGR sequence that sets an attribute (colour, bold, underline, inverse ...) switches
+            # highlighting on, a reset (0 / empty) or "default colour / normal intensity" switches it off
+            codes = [int(c) if c.isdigit() else 0 for c in (m.group(1).split(b";") if m.group(1) else [b"0"])]
+            sets = [c for c in codes if 1 <= c <= 9 or 30 <= c <= 38 or 40 <= c <= 48 or 90 <= c <= 107]
+            if sets:
                 on = True
-            elif b"0" in codes or codes == [b""]:
+            elif any(c == 0 or 21 <= c <= 29 or c in (39, 49) for c in codes):
                 on = False
             pos = m.end()
         else:
